@@ -89,7 +89,14 @@ func checkC17(r *mon.Run) {
 			hi = len(gs)
 		}
 		seen := map[refguid.GUID]bool{}
+		var prevBytes, prevWant []byte
+		var prevText string
 		for _, g := range gs[lo:hi] {
+			// results of earlier conversions must not change when another value is converted
+			if prevBytes != nil && (!bytes.Equal(prevBytes, prevWant)) {
+				r.Violation("C17|guid|earlier-result-overwritten", fmt.Sprintf("bytes returned for %s changed to %x after converting another GUID", prevText, prevBytes), map[string]any{"guid": prevText})
+				prevBytes = nil
+			}
 			lg := toLib(g)
 			want := g.Text()
 			viol := func(kind, what string) {
@@ -121,6 +128,7 @@ func checkC17(r *mon.Run) {
 			if !bytes.Equal(gb, g.BE()) {
 				viol("tobytes", fmt.Sprintf("GUIDToBytes=%x want %x", gb, g.BE()))
 			}
+			prevBytes, prevWant, prevText = gb, g.BE(), want
 			if p := mon.Try(func() {
 				if b2 := lg.Bytes(); !bytes.Equal(b2, g.BE()) {
 					viol("bytes-method", fmt.Sprintf("Bytes()=%x want %x", b2, g.BE()))
